@@ -414,6 +414,8 @@ func (conn *Conn) finishCall(ctx *Context, call *Call, seq uint64) {
 			call.Value = make([]byte, len(ctx.value))
 		}
 		copy(call.Value, ctx.value)
+	} else {
+		call.Value = nil
 	}
 	err := conn.codec.ReadResponseBody(call.Value, call.Reply)
 	if err != nil {
